@@ -70,6 +70,19 @@ def scenarios(tier):
     for tri, st in [(("t1A", "t2A", "t3B"), "Aunref"), (("xA", "t1A", "t2A"), "Aunref"), (("t1A", "t1B", "t3A"), "Aunref")]:
         out.append({"name": "%s||%s||%s from %s (pre-emption bound 2)" % (tri + (st,)), "init": st, "bound": 2,
                     "threads": {"T%d" % (i + 1): [mq[x]] for i, x in enumerate(tri)}, "pids": ("p1", "p2", "p3")})
+    # three calls on ONE pid (pre-emption bound 2): a rejected or waiting call between two others must neither release what
+    # it does not hold nor swallow the wake-up meant for the third (every multiset with a delete and a store / tag; thorough:
+    # every multiset of three same-pid calls from every starting state in which they are not all pure rejections)
+    same_pid = ["s1A", "s1B", "t1A", "d1"]
+    if tier == "quick":
+        fam = [(t, "p1A") for t in itertools.combinations_with_replacement(same_pid, 3)
+               if "d1" in t and any(x != "d1" for x in t)]
+    else:
+        fam = [(t, st) for t in itertools.combinations_with_replacement(same_pid, 3) for st in ("empty", "p1A", "p1B", "Aunref")
+               if not (st == "empty" and all(x == "d1" for x in t))]
+    for tri, st in fam:
+        out.append({"name": "%s||%s||%s from %s (pre-emption bound 2)" % (tri + (st,)), "init": st, "bound": 2,
+                    "threads": {"T%d" % (i + 1): [MENU[x]] for i, x in enumerate(tri)}, "pids": ("p1", "p2")})
     # one injected fault in one of two overlapping calls: the sequential reference runs inject the same fault
     out.append({"name": "s1A||s2A from empty + persistent ENOSPC at T1's object move", "init": "empty",
                 "threads": {"T1": [MENU["s1A"]], "T2": [MENU["s2A"]]}, "pids": ("p1", "p2"),
